@@ -1,0 +1,64 @@
+//go:build verif
+
+// Contracts for the acv verifier (/verif). Comment-only file: no executable code.
+
+package base
+
+//@ func LengthEncodedInt(data []byte) (num uint64, isNull bool, n int, err error)
+//@   props C12 C14
+//@   safety
+//@   ensures consumed: err == nil ==> 1 <= n && n <= len(data) && (n == 1 || n == 3 || n == 4 || n == 9)
+//@   ensures on-error: err != nil ==> n == 0 && num == 0 && !isNull
+//@   ensures null: err == nil ==> (isNull <==> data[0] == 0xfb)
+//@   ensures one-byte: err == nil && data[0] < 0xfb ==> n == 1 && num == uint64(data[0])
+//@   ensures two-byte: err == nil && data[0] == 0xfc ==> n == 3 && num == uint64(le16(data[1:3]))
+//@   ensures three-byte: err == nil && data[0] == 0xfd ==> n == 4 && num == uint64(le16(data[1:3])) + uint64(data[3]) * 65536
+//@   ensures eight-byte: err == nil && data[0] == 0xfe ==> n == 9 && num == le64(data[1:9])
+//@   modifies nothing
+
+//@ func LengthEncodedString(data []byte) (out []byte, n int, err error)
+//@   props C12 C14
+//@   safety
+//@   ensures in-bounds: err == nil ==> 0 <= n && n <= len(data)
+//@   ensures tail: err == nil && out != nil ==> len(out) <= n && sameslice(out, data[n-len(out):n])
+//@   ensures on-error: err != nil ==> out == nil
+//@   modifies nothing
+
+//@ func SkipLengthEncodedString(data []byte) (n int, err error)
+//@   props C12 C14
+//@   safety
+//@   ensures err == nil ==> 1 <= n && n <= len(data)
+//@   modifies nothing
+
+//@ func PutLengthEncodedInt(n uint64) (out []byte)
+//@   props C12 C14
+//@   safety
+//@   ensures out != nil && fresh(out)
+//@   ensures one-byte: n <= 250 ==> len(out) == 1 && out[0] == byte(n)
+//@   ensures two-byte: 250 < n && n <= 0xffff ==> len(out) == 3 && out[0] == 0xfc && uint64(le16(out[1:3])) == n
+//@   ensures three-byte: 0xffff < n && n <= 0xffffff ==> len(out) == 4 && out[0] == 0xfd && uint64(le16(out[1:3])) + uint64(out[3]) * 65536 == n
+//@   ensures eight-byte: 0xffffff < n ==> len(out) == 9 && out[0] == 0xfe && le64(out[1:9]) == n
+//@   modifies nothing
+
+//@ func PutLengthEncodedString(b []byte) (out []byte)
+//@   props C12 C14
+//@   safety
+//@   ensures null: b == nil ==> len(out) == 1 && out[0] == 0xfb
+//@   ensures short: b != nil && len(b) <= 250 ==> len(out) == 1 + len(b) && out[0] == byte(len(b)) && forall(i, 0, len(b), out[1+i] == b[i])
+//@   ensures length: b != nil && 250 < len(b) && len(b) <= 0xffff ==> len(out) == 3 + len(b)
+//@   modifies nothing
+
+//@ func Uint16ToBytes(n uint16) (out []byte)
+//@   props C12 C14
+//@   safety
+//@   ensures len(out) == 2 && le16(out) == n
+
+//@ func Uint32ToBytes(n uint32) (out []byte)
+//@   props C12 C14
+//@   safety
+//@   ensures len(out) == 4 && le32(out) == n
+
+//@ func Uint64ToBytes(n uint64) (out []byte)
+//@   props C12 C14
+//@   safety
+//@   ensures len(out) == 8 && le64(out) == n
